@@ -24,7 +24,17 @@ var verifGobResults = []Result{
 // shared with one — then the error; the Encoder hands each result to gob once.
 //
 //verif:harness unwind=64 replay=none
-func verif_harness_C09_gob_wrappers() {
+func verif_harness_C09_gob_wrappers() { verifGobWrappers() }
+
+// The same harness registered for C07: over the gob API model, vegeta's gob
+// Encoder/Decoder wrappers round-trip every record of a heterogeneous stream
+// (each decoded Result equals the one encoded, field by field, including the
+// fields gob does not transmit because they are zero).
+//
+//verif:harness unwind=64 replay=none
+func verif_harness_C07_gob_wrappers() { verifGobWrappers() }
+
+func verifGobWrappers() {
 	if !verif_is_symbolic_run() {
 		return
 	}
